@@ -53,6 +53,8 @@ fn get_factors_of_squarefree(a: &Polynomial<BigInt>) -> Vec<Polynomial<BigInt>> 
         bound = &bound * &two;
     }
     bound = &(&bound * &two) * &a.coef_at(n).abs();
+    #[cfg(feature = "verif-hooks")]
+    verif::record_bound(a, &bound);
 
     let mut p = BigInt::zero();
     let mut pusize = 0;
@@ -203,5 +205,17 @@ pub mod verif {
     use num::BigInt;
     pub fn get_factors_of_squarefree(a: &Polynomial<BigInt>) -> Vec<Polynomial<BigInt>> {
         super::get_factors_of_squarefree(a)
+    }
+
+    thread_local! {
+        static BOUNDS: std::cell::RefCell<Vec<(Vec<BigInt>, BigInt)>> = std::cell::RefCell::new(Vec::new());
+    }
+    /// Logs the coefficient bound chosen for the squarefree primitive polynomial `a`.
+    pub(super) fn record_bound(a: &Polynomial<BigInt>, bound: &BigInt) {
+        BOUNDS.with(|b| b.borrow_mut().push((a.dat.clone(), bound.clone())));
+    }
+    /// Takes the (polynomial, bound) pairs logged on this thread since the last call.
+    pub fn take_bounds() -> Vec<(Vec<BigInt>, BigInt)> {
+        BOUNDS.with(|b| std::mem::take(&mut *b.borrow_mut()))
     }
 }
